@@ -18,6 +18,9 @@
 #include <AIToolbox/POMDP/Algorithms/GapMin.hpp>
 #include <AIToolbox/POMDP/Environments/TigerProblem.hpp>
 #include <AIToolbox/Verif/Hooks.hpp>
+#include <sys/wait.h>
+#include <unistd.h>
+#include <signal.h>
 
 using namespace verif;
 namespace P = AIToolbox::POMDP;
@@ -187,6 +190,27 @@ static void runPerseus(Rng & rng, const Inst & I, const PModel & m) {
     }
 }
 
+// Run one anytime solver in a child process under a wall-clock budget: the observer bounds the NUMBER of iterations, but a single GapMin
+// iteration can run its inner PBVI to the 1e6-step horizon (minutes). Lines the child printed before the budget ran out are kept (they are
+// complete iterations); a child that crashes takes the case down with it, so check.py sees the crash and its sanitizer report as usual.
+static bool runBudgeted(const std::function<void()> & f, unsigned seconds, const char * what) {
+    std::fflush(stdout); std::fflush(stderr);
+    const pid_t pid = fork();
+    if (pid < 0) { f(); return true; }
+    if (pid == 0) { f(); std::fflush(stdout); _exit(0); }
+    for (unsigned t = 0; t < seconds * 20; ++t) {
+        int st = 0;
+        if (waitpid(pid, &st, WNOHANG) == pid) {
+            if (WIFEXITED(st) && WEXITSTATUS(st) == 0) return true;
+            std::fflush(stdout); _exit(WIFEXITED(st) ? WEXITSTATUS(st) : 134);     // propagate the crash
+        }
+        usleep(50000);
+    }
+    kill(pid, SIGKILL); int st = 0; waitpid(pid, &st, 0);
+    std::printf("#stat %s_wall_budget_stop 1\n", what); std::fflush(stdout);
+    return false;
+}
+
 struct Obs {
     const Inst * I; const char * algo; unsigned budget; P::VList prev; bool havePrev = false; unsigned n = 0; std::string params;
     bool operator()(const AIToolbox::Verif::AnytimeSnapshot & s) {
@@ -276,8 +300,8 @@ void verif_case(Rng & rng, long idx, const std::string & tier) {
         case 1: runUb(rng, I, m); break;
         case 2: if (!extreme) runPbvi(rng, I, m); break;
         case 3: if (!extreme) runPerseus(rng, I, m); break;
-        case 4: runSarsop(rng, I, m, tier); break;
-        case 5: runGapMin(rng, I, m, tier); break;
+        case 4: runBudgeted([&]{ runSarsop(rng, I, m, tier); }, tier == "thorough" ? 120 : 40, "sarsop"); break;
+        case 5: runBudgeted([&]{ runGapMin(rng, I, m, tier); }, tier == "thorough" ? 120 : 40, "gapmin"); break;
         case 6: if (!extreme) runKernels(rng, I, m); break;
     }
 }
